@@ -168,6 +168,43 @@ def module_constants(rel, wanted=None):
     return out
 
 
+def pyx_module_constants(rel, base=None, float_mode=False):
+    """module-level `NAME = <expr>` / `cdef <type> NAME = <expr>` constants of a .pyx file, evaluated in order from the CURRENT source (exact rationals of the source literals, or
+    floats in float_mode); `base` supplies names that come from C headers (DBL_MAX ...). Casts `<type>` are dropped."""
+    import re as _re
+    src = open(repo_path(rel)).read()
+    out = dict(base or {})
+    in_doc = False
+    for ln in src.split('\n'):
+        st = ln.strip()
+        q = st.count('"""') + st.count("'''")
+        if in_doc:
+            if q % 2 == 1:
+                in_doc = False
+            continue
+        if q % 2 == 1:
+            in_doc = True
+            continue
+        if not ln or ln[0] in ' \t#':
+            continue
+        m = _re.match(r'^(?:cdef\s+[\w\s\*]+?\s+)?([A-Za-z_]\w*)\s*=\s*([^=#].*?)\s*(?:#.*)?$', ln)
+        if not m or ln.startswith(('def ', 'cdef class', 'class ', 'from ', 'import ', 'cimport ')):
+            continue
+        name, expr = m.group(1), _re.sub(r'<[\w\s\*]+>', '', m.group(2))
+        try:
+            tree = ast.parse(expr, mode='eval')
+            if float_mode:
+                val = eval(compile(tree, rel, 'eval'), {'__builtins__': {}}, dict(out))
+            else:
+                tree = _Rewrite(expr).visit(tree)
+                ast.fix_missing_locations(tree)
+                val = eval(compile(tree, rel, 'eval'), dict(base_ns()), dict(out))
+            out[name] = val
+        except Exception:
+            continue
+    return out
+
+
 SPANS = {}
 
 
